@@ -851,19 +851,22 @@ class TrajectoryStore:
         assert input_stores is not None
         for input_store in input_stores:
             p = Path(input_store)
-            ts = TrajectoryStore.open(base_file=p)
-            if fieldset_names is None:
-                fieldset_names = set(ts._nc.keys())
-            if fieldset_names != set(ts._nc.keys()):
-                raise ValueError(
-                    'All input TrajectoryStore files must have the same field sets'
-                )
-            store_data.append((p.name, len(ts)))
-            index_groups.append(ts.index_group)
+            # The store is only opened to look at it: it must be closed again
+            # before its file is moved.
+            with TrajectoryStore.open(base_file=p) as ts:
+                if fieldset_names is None:
+                    fieldset_names = set(ts._nc.keys())
+                if fieldset_names != set(ts._nc.keys()):
+                    raise ValueError(
+                        'All input TrajectoryStore files must have the same '
+                        'field sets'
+                    )
+                store_data.append((p.name, len(ts)))
+                index_groups.append(ts.index_group is not None)
 
         # Check indexability consistency.
-        indexable = all(g is not None for g in index_groups)
-        if indexable != any(g is not None for g in index_groups):
+        indexable = all(index_groups)
+        if indexable != any(index_groups):
             raise ValueError('Either all or none of the input stores must be indexable')
 
         # Create output directory.
@@ -1643,16 +1646,16 @@ class TrajectoryStore:
         trajectory_indexes = []
         index_offset = 0
         for input_store in input_stores:
-            ts = TrajectoryStore.open(
+            with TrajectoryStore.open(
                 base_file=Path(output_store) / Path(input_store).name
-            )
-            assert ts.index_group is not None
-            vs = ts.index_group.variables
-            flight_ids += list(vs['flight_id'][:])
-            trajectory_indexes += [
-                idx + index_offset for idx in vs['trajectory_index'][:]
-            ]
-            index_offset += len(ts)
+            ) as ts:
+                assert ts.index_group is not None
+                vs = ts.index_group.variables
+                flight_ids += list(vs['flight_id'][:])
+                trajectory_indexes += [
+                    idx + index_offset for idx in vs['trajectory_index'][:]
+                ]
+                index_offset += len(ts)
         id_pairs = sorted(zip(trajectory_indexes, flight_ids), key=lambda x: x[1])
         index_group.variables['flight_id'][:] = [id for _, id in id_pairs]
         index_group.variables['trajectory_index'][:] = [idx for idx, _ in id_pairs]
